@@ -65,6 +65,10 @@ class C12(Check):
         n = 160 if tier == "quick" else 2400
         for i in range(n):
             yield {"i": i, "seed": seed}
+        # the same differential under non-UTC process time zones (temporal columns are converted at several places)
+        for zi, z in enumerate(("JST-9", "EST5EDT,M3.2.0,M11.1.0", "NPT-5:45")):
+            for i in range(16 if tier == "quick" else 300):
+                yield {"i": 500000 + zi * 10000 + i, "seed": seed, "tz": z, "temporal": True}
         # deterministic NaN / NULL focus on floating columns: every operator x literal x API variant
         for t in ("double", "float"):
             for layout in range(4):
@@ -160,7 +164,8 @@ class C12(Check):
         if "sequence" in case:
             return self._sequence(case, res)
         rng = rng_for(case["seed"], "c12", case["i"])
-        fields = gen.gen_schema(rng)
+        fields = gen.gen_schema(rng, types=["timestamp", "date", "time", "timestamp", "long"]) if case.get("temporal") \
+            else gen.gen_schema(rng)
         layout = gen.gen_layout(rng, fields, nan_p=rng.choice([0.0, 0.15, 0.4]),
                                 null_p=rng.choice([0.0, 0.2, 0.5]))
         with Scratch("c12") as d:
